@@ -113,8 +113,8 @@ Proof.
     split. apply Z.mod_pos_bound; lia. apply Z.mod_le; lia. }
   split; intros H.
   - apply P; assumption.
-  - replace a with (- (- a)) at 2 by lia. rewrite Z.rem_opp_l by assumption.
-    specialize (P (- a)). lia.
+  - assert (E : Z.rem a b = - Z.rem (- a) b) by (rewrite Z.rem_opp_l by assumption; lia).
+    rewrite E. specialize (P (- a)). lia.
 Qed.
 
 Lemma rem_in_range t a b :
@@ -187,7 +187,10 @@ Section Ops.
     { apply andb_false_iff.
       destruct (Z.eqb_spec a (- 2 ^ (wbits (regw t) - 1))) as [Ea|]; [|left; reflexivity].
       destruct (Z.eqb_spec b (-1)) as [Eb|]; [|right; reflexivity]. exfalso.
-      subst b. rewrite Z.quot_opp_r, Z.quot_1_r in Hq by lia.
+      subst b.
+      assert (Eq : Z.quot a (-1) = - a).
+      { change (-1) with (Z.opp 1). rewrite Z.quot_opp_r by lia. rewrite Z.quot_1_r. reflexivity. }
+      rewrite Eq in Hq.
       apply in_range_iff in Hq. apply in_range_iff in Ha.
       ity_cases t; try discriminate; lia. }
     rewrite O. rewrite wrap_id by assumption. reflexivity.
